@@ -386,7 +386,7 @@ ENTRY_OVERHEAD = 88      # size_of::<CacheEntry>() + key bytes, nominal: the pro
 
 
 def _model_op(o):
-    name = {"c_ins": "ins", "c_get": "get", "c_rem": "rem", "c_evict": "evict"}[o["op"]]
+    name = {"c_ins": "ins", "c_get": "get", "c_rem": "rem", "c_evict": "evict", "c_clear": "clear"}[o["op"]]
     return {"op": name, "k": o.get("k", 0), "g": o.get("g", 0), "sz": (o.get("vlen", 0) + ENTRY_OVERHEAD) if name == "ins" else 0}
 
 
@@ -413,7 +413,7 @@ def run_cache_model(tier, seed, rd, fxv, split_remove=False, emit_one_in=1, time
         fh.write("---- MODULE CCRun ----\n\\* generated by lib/checks/c16_cache.py\nEXTENDS CacheConc\nProgsLit == %s\n"
                  "Gts == [g \\in 0 .. 60 |-> g]\n====\n" % _tla(mprogs))
     with open(os.path.join(sd, "CCRun.cfg"), "w") as fh:
-        fh.write("CONSTANTS\n  Programs <- ProgsLit\n  GenTs <- Gts\n  SplitRemove = %s\n  EmitOneIn = %d\nSPECIFICATION Spec\n"
+        fh.write("CONSTANTS\n  Programs <- ProgsLit\n  GenTs <- Gts\n  SplitRemove = %s\n  ClearSnapshot = FALSE\n  EmitOneIn = %d\nSPECIFICATION Spec\n"
                  "CHECK_DEADLOCK FALSE\nINVARIANTS MemExact UniqueKey NoFlags EvLockFree EmitBehaviour\n"
                  % ("TRUE" if split_remove else "FALSE", emit_one_in))
     r = v.run_tlc("CCRun", "CCRun.cfg", rd, workers=8, timeout=timeout, coverage=False, xmx="8g", spec_dir=sd)
